@@ -104,7 +104,7 @@ Definition witness (p : path) : ty * Z :=
   | PGlobalArr => (tiny, 128)
   | PAssignFromElemN | PReturnElemN => (tint, 4294967296)
   | PAssignHint _ | PDeclMulti _ => (tiny, -1)
-  | PDeclTypedefTernary | PArrCopy | PArrLitAssign1 | PArrLitAssignN => (tiny, 128)
+  | PDeclTypedefTernary | PArrCopy | PArrLitAssign1 | PArrLitAssignN | PMember | PIndirect => (tiny, 128)
   | PStaticAssign | PElem1Global => (utiny, -1)
   | _ => (tiny, 0)
   end.
@@ -231,3 +231,20 @@ Lemma whole_array_store_is_checked_refuted_l :
   coerce tiny 300 = Fail ERange /\ mech_store PArrLitAssign1 utiny (-5) = Val 0 /\ mech_store PElem1Global utiny (-1) = Val (-1) /\
   mech_store PElem1Global utiny 200 = Fail ERange.
 Proof. vm_compute. auto 10. Qed.
+
+(* struct members, pointers, references (outside CbCore): what is stored is the value itself - clamped for an unsigned member that is
+   assigned directly - so a value the type admits is stored exactly and an out-of-range one is kept instead of being an error *)
+Lemma member_store_l t v :
+  (in_range t v = true -> (uns t = true -> 0 <= v) -> mech_store PMember t v = coerce t v /\ mech_store PIndirect t v = coerce t v) /\
+  (uns t = true -> v < 0 -> mech_store PMember t v = coerce t v) /\
+  (in_range t v = false -> (uns t = false \/ 0 <= v) -> mech_store PMember t v = Val v /\ mech_store PIndirect t v = Val v /\ coerce t v = Fail ERange).
+Proof.
+  cbn [mech_store]. rewrite mech_clamp_is_spec_l. unfold coerce. split; [|split].
+  - intros H H0. assert (E : uns t && (v <? 0) = false).
+    { destruct (uns t) eqn:U; [|reflexivity]. cbn [andb]. apply Z.ltb_ge. apply H0. reflexivity. }
+    rewrite E, H. split; reflexivity.
+  - intros U Hv. rewrite U. apply Z.ltb_lt in Hv. rewrite Hv. reflexivity.
+  - intros H Hu. assert (E : uns t && (v <? 0) = false).
+    { destruct Hu as [U|Hv]; [rewrite U; reflexivity|]. apply Z.ltb_ge in Hv. rewrite Hv. apply andb_false_r. }
+    rewrite E, H. repeat split; reflexivity.
+Qed.
